@@ -1095,6 +1095,7 @@ func init() {
 		c02FamiliesPart(r)
 		c02Programs(r)
 		c02ReencodeLimits(r)
+		c02ReencodeGdef(r)
 		c02Corruptions(r, seeds)
 		sb := 0
 		if !r.Quick() {
